@@ -9,24 +9,29 @@ TARGETS = ["Base/Corr.vo", "Base/Fl.vo", "Base/Num.vo", "C01/Model.vo", "C01/Mod
            "C08/ProofsReduce.vo",
            "C08/SpecTest.vo", "C08/Props.vo"]
 PROPS = ["C08/Props.v"]
-PARTIAL = ("Scalar theorems are about the shared register-file model coq/C01/Model.v, for an ARBITRARY carrier (floats "
-           "included, no ring law used): closed form of both combinators for every receiver, receiver independence of every "
-           "single-step operation (20 one-operand ops, Add Sub Mul Div Pow Sqrt) under the computed side condition [keeps], "
-           "Set/Min/Max/Abs under [set_ok], the multi-step programs Logistic, Sigmoid, Log1pExp (branches v<=18, v>33.3), "
-           "LogAdd/LogSub with the receiver among the operands; refuted with witnesses: mixed-order alias (F-ALLOC), "
-           "Log1pExp branch 18<v<=33.3. Matrix product on the heap/header model coq/C10/Model.v over Z, all well-formed "
-           "views: r = a and r = b proved when the other factor lives in another backing array; r = a = b, r = b.T(), "
-           "r = a.T(), r = a with b in the same backing array: refuted. Element-wise matrix ops: identical views / other "
-           "arrays proved, transposed receiver refuted. Element-wise vector ops on slices: identical, left-shifted and "
-           "disjoint receivers proved, right-shifted refuted. MdotV/VdotM: rejection proved, shifted overlap refuted. NOT "
-           "proved (correspondence + hunt only): operands that are DISJOINT views of the receiver's backing array for the "
-           "matrix operations, derivatives carried by Real64 matrix products (values only), sparse containers, reductions "
-           "(Vmean, VdotV, Vnorm, Mtrace, Mnorm, SmoothMax, LogSmoothMax) with the receiver or a temporary inside the "
-           "vector, a scratch argument that is also an operand (characterised by the model and counted by the hunt).")
+PARTIAL = ("Scalar theorems are about the shared register-file model coq/C01/Model.v (HEAD incl. the fixes 7035970, 2fc8894, d9fca78), for "
+           "an ARBITRARY carrier (floats included, no ring law used): closed form of both combinators for every receiver, receiver "
+           "independence of every single-step operation (20 one-operand ops, Add Sub Mul Div Pow Sqrt) under the computed side condition "
+           "[keeps]; Set/Min/Max/Abs/ABS with NO side condition beyond the storage invariant (Set never panics); the multi-step programs "
+           "Logistic, Sigmoid, Log1pExp (ALL four branches, c = a included), LogAdd/LogSub with the receiver among the operands; Sigmoid "
+           "with the scratch argument equal to the argument; reductions with the receiver among the elements: the call does not depend on "
+           "the aliased element's value (all carriers) + binary64 witnesses (F-C08-REDUCE-ELEM). Refuted with witnesses: mixed-order alias "
+           "(F-ALLOC). Matrix product on the heap/header model coq/C10/Model.v over Z, all well-formed views: r = a and r = b proved when the "
+           "other factor lives in another backing array; r = a = b, r = b.T(), r = a.T(), r = a with b in the same backing array: refuted. "
+           "Element-wise matrix ops: identical views / other arrays proved, transposed receiver refuted. Element-wise vector ops on slices: "
+           "identical, left-shifted and disjoint receivers proved, right-shifted refuted. MdotV/VdotM: rejection proved, shifted overlap "
+           "refuted. NOT proved (correspondence + hunt only): operands that are DISJOINT views of the receiver's backing array for the matrix "
+           "operations (generated, replayed by the model, hunt classes must agree with a fresh receiver); derivatives carried by Real64/Real32 "
+           "matrix products (hunt compares full jets of every entry for r = a, r = b, disjoint views; the Z model carries values only); Mnorm "
+           "with the receiver at position (0,0) (safe: hunt class must agree) and the in-vector witnesses for Vnorm/SmoothMax/LogSmoothMax "
+           "(bit-exact replay + hunt); LogAdd/LogSub with the scratch argument equal to an operand (exact rule in the harness: expected-safe "
+           "classes must agree); sparse containers.")
 CORPUS = os.path.join(vlib.ROOT, "corpus/C08/corpus.jsonl")
 
 # hunt sites that are defects owned by other properties' known findings (referenced, not duplicated)
-REFERENCED = {"alloc-diffN": "F-C20-DYADIC-ALLOC"}
+REFERENCED = {"alloc-diffN": "F-C20-DYADIC-ALLOC",
+              # F-ALLOC inside the Real matrix product (accumulator of lower Order than the product term): see harness/c08/jets.go
+              "MdotM-jets:mixed-order-entries": "F-ALLOC"}
 
 
 def all_known():
@@ -104,7 +109,7 @@ def run(ctx):
         "shared models coq/C01/Model.v (scalars) and coq/C10/Model.v + Gen.v (dense matrices; Gen.v is regenerated from /repo by property C10's check)",
         "libm / special-function results enter the bit-exact scalar replay as logged oracle values (what they compute is C01/C02/C13's business; alias independence does not depend on them)",
         "matrix/vector replay uses integer-valued entries (exact in binary64) against the Z instance of the model",
-        "axioms: scalar theorems are closed under the global context (no axioms); the two refuted lemmas over R use Coq's Reals"]
+        "axioms: scalar theorems are closed under the global context (no axioms) except reduction_overwrites_receiver_element (functional extensionality, for equality of register files); the refuted / regression lemmas over R use Coq's Reals; the binary64 witnesses use primitive floats"]
     ctx.cov["partial"] = PARTIAL
     ok, failures = vlib.proof_stage(ctx, TARGETS, PROPS)
     thms = vlib.theorem_names(os.path.join(vlib.COQ, "C08/Props.v"))
